@@ -15,7 +15,7 @@
 //   'k' "<stream 1|2> <fail_after_bytes> <errno>"
 //   'u' user line               'z' user EOF
 //   'r' "<seed> <absent_errno> <short_after>"   /dev/urandom
-//   'c' "<readline_cap> <fill_stack 0|1>"
+//   'c' "<readline_cap> <fill_stack 0|1> [<probe 0|1>]"
 // result (zygote -> python), terminated by '.':
 //   events recorded by the child (see emit()) followed by
 //   'X' raw bytes the child wrote to its real fd 1/2 (sanitizer reports)
@@ -138,6 +138,7 @@ struct World {
     long urandom_short_after = -1;
     long readline_cap = 10000;
     bool fill_stack = true;
+    bool probe = true;
     std::map<std::string, FileSpec> fs;
 };
 World W;
@@ -303,7 +304,7 @@ size_t g_user_i = 0;
 long g_readline_calls = 0;
 
 void do_probe() {
-    if (!btcsim_probe) return;
+    if (!btcsim_probe || !W.probe) return;
     static char buf[1 << 20];
     size_t n = btcsim_probe(buf, sizeof buf);
     emit('P', buf, n);
@@ -392,7 +393,7 @@ bool read_world(int fd) {
         case 'u': W.user.push_back({false, p}); break;
         case 'z': W.user.push_back({true, ""}); break;
         case 'r': { unsigned long long s; int e; long sh; if (sscanf(p.c_str(), "%llu %d %ld", &s, &e, &sh) == 3) { W.urandom_seed = s; W.urandom_absent_errno = e; W.urandom_short_after = sh; } break; }
-        case 'c': { long cap; int fs; if (sscanf(p.c_str(), "%ld %d", &cap, &fs) == 2) { W.readline_cap = cap; W.fill_stack = fs != 0; } break; }
+        case 'c': { long cap; int fs; int pr = 1; if (sscanf(p.c_str(), "%ld %d %d", &cap, &fs, &pr) >= 2) { W.readline_cap = cap; W.fill_stack = fs != 0; W.probe = pr != 0; } break; }
         default: break;
         }
     }
